@@ -893,22 +893,19 @@ Proof.
     destruct (keys_in ["class"; "size"; "align"; "byte-order"] l) eqn:Hk; [|discriminate]. cbn [negb] in H.
     destruct (lookup "size" l) as [[| | | | | |sl]|] eqn:Es; try discriminate.
     inv_obind H. rename a into al.
-    apply negb_true_iff in Hok.
-    assert (Hk' : keys_in ["byte-order"; "class"; "size"; "align"] l = true) by kin.
-    apply keys_in_drop in Hk'; [|exact Hok].
     unfold conv_real.
-    assert (Hsz : lookup "size" (rename "align" "alignment" (put "class" (YStr "real") l)) = Some (YMap sl)).
+    assert (Hsz : lookup "size" (del "byte-order" (rename "align" "alignment" (put "class" (YStr "real") l))) = Some (YMap sl)).
     { lk. exact Es. }
     rewrite Hsz.
     assert (Hres : forall e m,
-               v3_ft (S n) (YMap (put "size" (YInt (e + m)) (rename "align" "alignment" (put "class" (YStr "real") l))))
+               v3_ft (S n) (YMap (put "size" (YInt (e + m)) (del "byte-order" (rename "align" "alignment" (put "class" (YStr "real") l)))))
                = Some (FReal (e + m) al)).
     { intros e m. apply v3_ft_real.
       - apply class_of_lookup. lk. reflexivity.
       - kin.
       - lk. reflexivity.
       - rewrite <- E. apply rd_z_ext. lk.
-        rewrite (keys_in_none _ _ "alignment" Hk' eq_refl). destruct (lookup "align" l); reflexivity. }
+        rewrite (keys_in_none _ _ "alignment" Hk eq_refl). destruct (lookup "align" l); reflexivity. }
     destruct (real_size_cases _ _ _ _ H) as [e [m [He [Hm ->]]]]. rewrite He, Hm.
     eexists. split; [reflexivity|]. apply Hres. }
   destruct (one_of c ["str"; "string"]) eqn:C4.
@@ -1238,8 +1235,10 @@ Ltac refute w :=
                end
   end.
 
-Theorem H1_real_byte_order_refuted : disagrees w_real_byte_order.
-Proof. refute w_real_byte_order. Qed.
+(* H1 (a float carrying `byte-order`) was refuted by w_real_byte_order until fix 3990a98 of /repo; the document
+   is now inside valid_v2 and is kept as a regression input of the harness *)
+Example w_real_byte_order_now_valid : valid_v2 10 w_real_byte_order = true.
+Proof. vm_compute. reflexivity. Qed.
 Theorem H2_fields_null_refuted : disagrees w_fields_null /\ conv_config w_fields_null = Crash.
 Proof. split; [refute w_fields_null|vm_compute; reflexivity]. Qed.
 Theorem H3_seq_num_refuted : disagrees w_seq_num.
@@ -2137,16 +2136,11 @@ Definition ft_full_statement : Prop :=
   forall fuel y f, v2_ft fuel y = Some f -> exists y', conv_ft y = Ok y' /\ v3_ft fuel y' = Some (erase_clk f).
 
 Definition w_ft_fields_null : yaml := YMap [("class", YStr "struct"); ("fields", YNull)].
-Definition w_ft_real_bo : yaml :=
-  YMap [("class", YStr "float"); ("size", YMap [("exp", YInt 8); ("mant", YInt 24)]); ("byte-order", YStr "le")].
-
 Theorem ft_full_refuted :
   ~ ft_full_statement
-  /\ (v2_ft 2 w_ft_fields_null = Some (FStruct None []) /\ conv_ft w_ft_fields_null = Crash)
-  /\ (v2_ft 2 w_ft_real_bo = Some (FReal 32 None) /\ exists y', conv_ft w_ft_real_bo = Ok y' /\ v3_ft 2 y' = None).
+  /\ (v2_ft 2 w_ft_fields_null = Some (FStruct None []) /\ conv_ft w_ft_fields_null = Crash).
 Proof.
-  split; [|split].
+  split.
   - intros F. destruct (F 2%nat w_ft_fields_null (FStruct None []) eq_refl) as [y' [H _]]. vm_compute in H. discriminate.
   - split; reflexivity.
-  - split; [reflexivity|]. eexists. split; vm_compute; reflexivity.
 Qed.
